@@ -1,235 +1,37 @@
-import IpamVerif.AllocOrder
-import IpamVerif.System
+import IpamVerif.Justified
+import IpamVerif.Tight
 /-!
 # C04 — blocks are withheld only while something in the cluster justifies it
 
-Proved here (the release paths of one work item):
-* a block reserved by `allocateCIDR` and given back by `Release` leaves the pool's used set exactly as it
-  was (`reserve_then_release_restores`) — the path taken when the other family of a dual-stack
-  ClusterCIDR is exhausted (after the repair of `prioritizedCIDRs`), when the node turns out to have pod
-  CIDRs already, when the write is rejected, and when the node cannot be read back (after the repair of
-  `updateCIDRsAllocation`);
-* in each of those branches `updateCIDRsAllocation` does call `releaseAll` on exactly the reserved CIDRs
-  of the serving entry, and in the success branch it does not (`failed_write_releases`,
-  `node_has_cidrs_releases`, `vanished_node_releases`, `success_keeps`);
-* a failing allocation from a pool changes no used set at all, only cursors (`failed_allocation_reserves_nothing`).
-PARTIAL: the history invariant "every used block is justified" is false on the pinned code for the known
-findings P8 (release routed by the node's current labels), P11 (release from the wrong one of two
-overlapping ClusterCIDRs), P17b (partial occupation), P19 (stale tombstone); it is checked on every
-history of the correspondence stream by the judge, inside the envelope those findings leave.
+**Proved over whole histories, on the fragment of `Safety.lean`** (`withheld_only_while_justified`, from
+`Tight.lean`): at every moment a block in use is a pod CIDR of an existing node, or of a deleted node whose
+delete notification is still to come, or meets a service range.  **Proved with no assumption on the history**
+(`Justified.lean`): reserve-then-release restores the pool, a refused or failed attempt reserves nothing, every
+release branch of `updateCIDRsAllocation`, what one allocation item may keep.  **Outside the fragment** blocks do
+leak on the pinned code: findings P8 P11 P17b P19 P21 (witnesses replayed on every run), and P13 for lost writes.
 -/
 namespace Ipam.C04
 open Ipam
 
-/-- reserve block `k` (free) and give it back: the used set is what it was, the counter too -/
-theorem reserve_then_release_restores {f : Fam} {p p1 : Pool} (hp : PoolOK f p) {k : Nat} (hk : k < p.max)
-    (hfree : k ∉ p.used) (h1 : p.occupy (goBlock p.geo k) = some p1) :
-    ∃ p2, p1.release (goBlock p.geo k) = some p2 ∧ (∀ j, j ∈ p2.used ↔ j ∈ p.used) ∧ p2.count = p.count ∧ PoolOK f p2 :=
-  Ipam.reserve_then_release_restores hp hk hfree h1
-
-/-- **an allocation attempt that does not end in a reservation leaves every used set as it was** — whichever
-entries were tried, whichever family ran out (the IPv4 block of a dual-stack entry whose IPv6 pool is
-exhausted is given back): only cursors and the allocation / release counters moved -/
-theorem refused_attempt_reserves_nothing {a a' : Alloc} (ha : a.WF) (l : List Nat)
-    (h : a.prioritized l = (a', none)) : AllocEqv a a' ∧ a'.WF :=
-  let ⟨_, hwf, he⟩ := prioritized_le ha l h
-  ⟨he rfl, hwf⟩
-
-/-- … and one that does reserve only adds to the used sets (nothing is released on the way) -/
-theorem attempt_only_grows {a a' : Alloc} (ha : a.WF) (l : List Nat) (r : Option (List Cidr × Nat))
-    (h : a.prioritized l = (a', r)) : AllocLe a a' ∧ a'.WF :=
-  let ⟨hle, hwf, _⟩ := prioritized_le ha l h
-  ⟨hle, hwf⟩
-
-/-- a failing allocation from a pool reserves nothing: only the rotating cursor of that pool moved -/
-theorem failed_allocation_reserves_nothing {a a' : Alloc} {i : Nat} {f : Fam} {c : CC} {p : Pool}
-    (hget : a.get? i = some c) (hp : c.pool f = some p) (hok : PoolOK f p) (h : a.allocate i f = (a', none)) :
-    ∃ x, a' = a.set i (c.setPool f { p with cursor := x }) :=
-  let ⟨_, x, hx, _⟩ := (allocate_spec hget hp hok).1 a' h
-  ⟨x, hx⟩
-
-/-- the node turns out to have (other) pod CIDRs: the reservation is given back, nothing is written -/
-theorem node_has_cidrs_releases (s : Sys) (name : String) (cidrs : List Cidr) (i : Nat) (ws : List WOut) (n2 : NodeObj)
-    (hv : getNode s.nodeView name = some n2) (hne : ¬ (!n2.junk && n2.cidrs = cidrs) = true) (hc : n2.hasCidrs = true) :
-    (updateCIDRsAllocation s name cidrs i ws).1.alloc = (s.alloc.releaseAll i cidrs).1 ∧
-    (updateCIDRsAllocation s name cidrs i ws).2.patches = [] := by
-  unfold updateCIDRsAllocation
-  rw [hv]
-  simp only
-  rw [if_neg (by simpa using hne), if_pos hc]
-  split <;> (rename_i heq; rw [heq]; exact ⟨rfl, rfl⟩)
-
-/-- the node cannot be read back: the reservation is given back -/
-theorem vanished_node_releases (s : Sys) (name : String) (cidrs : List Cidr) (i : Nat) (ws : List WOut)
-    (hv : getNode s.nodeView name = none) :
-    (updateCIDRsAllocation s name cidrs i ws).1.alloc = (s.alloc.releaseAll i cidrs).1 ∧
-    (updateCIDRsAllocation s name cidrs i ws).2.res = "err" := by
-  unfold updateCIDRsAllocation
-  rw [hv]
-  exact ⟨rfl, rfl⟩
-
-/-- all three write attempts failed: the reservation is given back (the code cannot tell an ambiguous
-outcome from a clean failure, see P13), the error is returned and an event recorded -/
-theorem failed_write_releases (s : Sys) (name : String) (cidrs : List Cidr) (i : Nat) (ws : List WOut) (n2 : NodeObj)
-    (hv : getNode s.nodeView name = some n2) (hc : n2.hasCidrs = false) (hcs : cidrs ≠ [])
-    (hfail : (patchLoop s.api name cidrs 3 ws []).2.1 = false) :
-    (updateCIDRsAllocation s name cidrs i ws).1.alloc = (s.alloc.releaseAll i cidrs).1 ∧
-    (updateCIDRsAllocation s name cidrs i ws).2.res = "err" ∧
-    (updateCIDRsAllocation s name cidrs i ws).2.events = ["CIDRAssignmentFailed"] := by
-  unfold updateCIDRsAllocation
-  rw [hv]
-  simp only
-  have hj : n2.junk = false := by unfold NodeObj.hasCidrs at hc; simp at hc; exact hc.1
-  have he : n2.cidrs = [] := by unfold NodeObj.hasCidrs at hc; simp at hc; exact hc.2
-  rw [if_neg (by simp [hj, he]; exact fun h => hcs h), if_neg (by simp [hc])]
-  cases hp : patchLoop s.api name cidrs 3 ws [] with
-  | mk api' r =>
-    obtain ⟨okk, ps⟩ := r
-    rw [hp] at hfail
-    simp only at hfail
-    subst hfail
-    simp
-
-/-- the write succeeded: the reservation stays and the node is associated with the serving entry -/
-theorem success_keeps (s : Sys) (name : String) (cidrs : List Cidr) (i : Nat) (ws : List WOut) (n2 : NodeObj)
-    (hv : getNode s.nodeView name = some n2) (hc : n2.hasCidrs = false) (hcs : cidrs ≠ [])
-    (hok : (patchLoop s.api name cidrs 3 ws []).2.1 = true) (c : CC) (hget : s.alloc.get? i = some c) :
-    (updateCIDRsAllocation s name cidrs i ws).1.alloc = s.alloc.set i (c.addAssoc name) ∧
-    (updateCIDRsAllocation s name cidrs i ws).2.res = "ok" := by
-  unfold updateCIDRsAllocation
-  rw [hv]
-  simp only
-  have hj : n2.junk = false := by unfold NodeObj.hasCidrs at hc; simp at hc; exact hc.1
-  have he : n2.cidrs = [] := by unfold NodeObj.hasCidrs at hc; simp at hc; exact hc.2
-  rw [if_neg (by simp [hj, he]; exact fun h => hcs h), if_neg (by simp [hc])]
-  cases hp : patchLoop s.api name cidrs 3 ws [] with
-  | mk api' r =>
-    obtain ⟨okk, ps⟩ := r
-    rw [hp] at hok
-    simp only at hok
-    subst hok
-    simp [hget]
-
-end Ipam.C04
-
-namespace Ipam.C04
-open Ipam
-
-/-- **one node work item, seen from the reservation state**: either nothing stays reserved — every used
-set is what it was before the item (refusal; node vanished; node turned out to have other pod CIDRs; all
-write attempts failed) — or the item ended well (`res = "ok"`) with exactly the blocks `prioritizedCIDRs`
-reserved from one entry, and then either the write succeeded and the node is associated with that entry, or
-the cache shows the node already holding exactly those CIDRs (the "answer was lost" case) -/
-theorem item_keeps_only_justified_reservations (s : Sys) (hwf : s.alloc.WF) (n : NodeObj) (refresh : Bool)
-    (ws : List WOut) (hn : n.hasCidrs = false)
-    (hr : refresh = true → (getNode s.api.nodes n.name).isSome = true) :
-    AllocEqv s.alloc (allocateOrOccupy s n refresh ws).1.alloc ∨
-    ∃ al cidrs i, s.alloc.prioritized (s.alloc.ordered n.labels true) = (al, some (cidrs, i)) ∧
-      (allocateOrOccupy s n refresh ws).2.res = "ok" ∧
-      ((allocateOrOccupy s n refresh ws).1.alloc = al ∨
-       ∃ c, al.get? i = some c ∧ (allocateOrOccupy s n refresh ws).1.alloc = al.set i (c.addAssoc n.name)) := by
-  unfold allocateOrOccupy
-  rw [if_neg (by simp [hn])]
-  cases hp : s.alloc.prioritized (s.alloc.ordered n.labels true) with
-  | mk al r =>
-    cases r with
-    | none =>
-      left
-      exact (refused_attempt_reserves_nothing hwf _ hp).1
-    | some ci =>
-      obtain ⟨cidrs, i⟩ := ci
-      simp only
-      obtain ⟨a'', hrel, heqv, _⟩ := prioritized_then_release hwf _ hp
-      split
-      · left
-        -- empty reservation: `cidrs = []`, there is nothing to restore
-        rename_i he
-        have hc : cidrs = [] := by simpa using he
-        subst hc
-        simp only [Alloc.releaseAll, Prod.mk.injEq] at hrel
-        exact hrel.1 ▸ heqv
-      · -- the state the second half of the item starts from differs from `al` in the cache and queue only
-        have key : ∀ (s2 : Sys), s2.alloc = al →
-            AllocEqv s.alloc (updateCIDRsAllocation s2 n.name cidrs i ws).1.alloc ∨
-            ((updateCIDRsAllocation s2 n.name cidrs i ws).2.res = "ok" ∧
-             ((updateCIDRsAllocation s2 n.name cidrs i ws).1.alloc = al ∨
-              ∃ c, al.get? i = some c ∧ (updateCIDRsAllocation s2 n.name cidrs i ws).1.alloc = al.set i (c.addAssoc n.name))) := by
-          intro s2 hs2
-          unfold updateCIDRsAllocation
-          split
-          · left; simp only [hs2, hrel]; exact heqv
-          · split
-            · right; exact ⟨rfl, Or.inl hs2⟩
-            · split
-              · left
-                simp only [hs2, hrel]
-                exact heqv
-              · simp only
-                split
-                · right
-                  refine ⟨rfl, ?_⟩
-                  simp only [hs2]
-                  cases hg : al.get? i with
-                  | none => left; rfl
-                  | some c => right; exact ⟨c, rfl, rfl⟩
-                · left; simp only [hs2, hrel]; exact heqv
-        have fin : ∀ (s2 : Sys), s2.alloc = al →
-            AllocEqv s.alloc (updateCIDRsAllocation s2 n.name cidrs i ws).1.alloc ∨
-            ∃ al' cidrs' i', (al, some (cidrs, i)) = (al', some (cidrs', i')) ∧
-              (updateCIDRsAllocation s2 n.name cidrs i ws).2.res = "ok" ∧
-              ((updateCIDRsAllocation s2 n.name cidrs i ws).1.alloc = al' ∨
-               ∃ c, al'.get? i' = some c ∧ (updateCIDRsAllocation s2 n.name cidrs i ws).1.alloc = al'.set i' (c.addAssoc n.name)) := by
-          intro s2 hs2
-          rcases key s2 hs2 with h | h
-          · exact Or.inl h
-          · exact Or.inr ⟨al, cidrs, i, rfl, h.1, h.2⟩
-        split
-        · rename_i hrt
-          have hsome := hr hrt
-          split
-          · exact fin _ rfl
-          · rename_i hnone
-            rw [hnone] at hsome
-            cases hsome
-        · exact fin _ rfl
-
-/-- the remaining case: the node left the cache in the middle of the item.  The item gives its reservation
-back (`a₁` is equivalent to the state before the item), and what happens next is exactly the delete
-handler of that cache update releasing the node's final pod CIDRs -/
-theorem vanished_mid_item (s : Sys) (hwf : s.alloc.WF) (n : NodeObj) (ws : List WOut) (hn : n.hasCidrs = false)
-    (hgone : getNode s.api.nodes n.name = none) :
-    (∃ a₁, AllocEqv s.alloc a₁ ∧ (allocateOrOccupy s n true ws).1.alloc = a₁) ∨
-    ∃ a₁, AllocEqv s.alloc a₁ ∧
-      (allocateOrOccupy s n true ws).1.alloc = (releaseCIDR a₁ ((getNode s.api.graves n.name).getD n)).1 := by
-  unfold allocateOrOccupy
-  rw [if_neg (by simp [hn])]
-  cases hp : s.alloc.prioritized (s.alloc.ordered n.labels true) with
-  | mk al r =>
-    cases r with
-    | none =>
-      left
-      exact ⟨al, (refused_attempt_reserves_nothing hwf _ hp).1, rfl⟩
-    | some ci =>
-      obtain ⟨cidrs, i⟩ := ci
-      simp only
-      obtain ⟨a'', hrel, heqv, _⟩ := prioritized_then_release hwf _ hp
-      split
-      · left
-        rename_i he
-        have hc : cidrs = [] := by simpa using he
-        subst hc
-        simp only [Alloc.releaseAll, Prod.mk.injEq] at hrel
-        exact ⟨al, hrel.1 ▸ heqv, rfl⟩
-      · right
-        simp only [if_true, hgone]
-        refine ⟨a'', heqv, ?_⟩
-        have hv : getNode (delNode s.nodeView n.name) n.name = none := by
-          unfold getNode delNode
-          rw [List.find?_eq_none]
-          intro x hx
-          have := (List.mem_filter.mp hx).2
-          simpa using this
-        unfold updateCIDRsAllocation
-        simp only [hv, hrel]
+/-- **C04 over whole histories, on the fragment of `Safety.lean`** (ClusterCIDRs with disjoint ranges, no restart, no
+node write that is applied but reported as failed, …): at every moment of every such history, a block that is in use
+— unavailable for allocation — is a pod CIDR of an existing node, or of a deleted node whose delete notification
+has not been delivered yet (it is still in the controller's cache), or it meets a configured service range.  Blocks
+of nodes whose deletion has been delivered, and blocks reserved by attempts that did not end in a successful node
+update, are free again. -/
+theorem withheld_only_while_justified (s : Sys) (hs : Safety.Inv s) (hT : Safety.Tight s) (evs : List Ev)
+    (hf : Safety.FragAll s evs) :
+    ∀ j cd, Safety.UsedAt (run s evs).alloc j cd →
+      (∃ v ∈ (run s evs).api.nodes, cd ∈ v.cidrs) ∨
+      (∃ v ∈ (run s evs).api.graves, cd ∈ v.cidrs ∧ ∃ w ∈ (run s evs).nodeView, w.name = v.name) ∨
+      (∃ svc ∈ (run s evs).svcs, ¬ cd.Disjoint svc) := by
+  intro j cd hu
+  have hI := Safety.inv_run evs s hs hf
+  rcases Safety.tight_run evs s hs hT hf j cd hu with ⟨x, hcx, v, hvm, hvn, hcd⟩ | hsvc
+  · rcases List.mem_append.mp hvm with hvm | hvm
+    · exact Or.inl ⟨v, hvm, hcd⟩
+    · obtain ⟨w, hw, hwn⟩ := hI.pend j x hcx
+      exact Or.inr (Or.inl ⟨v, hvm, hcd, w, hw, hwn.trans hvn.symm⟩)
+  · exact Or.inr (Or.inr hsvc)
 
 end Ipam.C04
